@@ -3,6 +3,7 @@ import PyElf.Spec.DieTree
 import PyElf.Spec.DieSection
 import PyElf.Model.Die
 import PyElf.Model.DieSection
+import PyElf.Model.SigCache
 import PyElf.Model.Env
 open Lean
 namespace PyElf.Driver.C04
@@ -145,6 +146,8 @@ def sectionRef (infoUnits : List (Lookup.CU × R UnitCtx) × Option Err) (infoSi
 structure QState where
   /-- a DIE below the unit's first-entry offset was fetched (see `fetch`) -/
   low : Bool := false
+  /-- the DW_FORM_ref_sig8 values followed so far, in query order (the history the signature-map cache sees) -/
+  sigs : List Int := []
 
 def isLow {α : Type} (r : R α) : Bool :=
   match r with
@@ -185,7 +188,7 @@ def runUnit (w : World) (infoUnits sigU : List (Lookup.CU × R UnitCtx) × Optio
               | .ok (.section x) => (acc ++ [refResJson (sectionRef infoUnits infoSize x)], st)
               | .ok (.sig8 s) =>
                 let r := sigRef sigU s
-                (acc ++ [refResJson r], { st with low := st.low || isLow r })
+                (acc ++ [refResJson r], { st with low := st.low || isLow r, sigs := st.sigs ++ [s] })
             else (acc, st)
           | _ => (acc, st)) (acc, st)) (([] : List Json), st)
       (Json.mkObj [("hdr", cuHdrJson cu), ("dies", Json.mkObj [("ok", Json.arr (dies.map fun (d, p) => dieJson d p).toArray)]),
@@ -210,7 +213,12 @@ def runWorld (w : World) : Except String Json := do
     let (j, st') := runUnit w infoUnits sigU cu rU rDies st
     (acc ++ [j], st')) (([] : List Json), st)
   let hook := (infoUnits.1 ++ typeUnits.1).any fun (_, rU) => match rU with | .ok U => topHookFails U | .error _ => false
+  -- the same signature lookups through the MODEL OF THE CACHE `_type_units_by_sig` (Model/SigCache; Props/C04
+  -- `sig8_history_independent` says these are the stateless answers above): answers in query order and whether the
+  -- map has been published at the end
+  let hist := Model.SigCache.run sigU (fun us s => dieBySig8 fetch us none s) Model.SigCache.St.init st.sigs
   return Json.mkObj [("top_hook_fails", Json.bool hook), ("low_fetch", Json.bool st.low),
+                     ("sig_hist", Json.arr (hist.1.map refResJson).toArray), ("sig_published", Json.bool hist.2.map.isSome),
                      ("info", Json.mkObj [("units", Json.arr ij.toArray), ("end", endJson infoUnits.2)]),
                      ("types", Json.mkObj [("units", Json.arr tj.toArray), ("end", endJson typeUnits.2)])]
 
